@@ -441,7 +441,7 @@ func runCalls(c Case, e *env) []Event {
 				viewText = rxBlanks.ReplaceAllString(viewText, " ")
 			}
 			obs["view"] = dig(viewText + "\x00" + viewHTML)
-			obs["txtwc"] = len(strings.Fields(res.Text))
+			obs["txtwc"] = countWords(res.Text)
 			obs["ntitle"] = len(res.Title)
 			obs["onlytxt"] = onlyText(res.Node)
 			if obs["onlytxt"].(bool) && res.Title == "" && res.Text != "" {
